@@ -303,6 +303,12 @@ def arith_py(op, a, b):
 ALIAS_LOG = []
 
 
+def arith_np(op, a, b):
+    """the NumPy ufunc optyx's nodes evaluate with (np.add … np.power); note that the scalar `**` operator of a NumPy
+    scalar takes another code path than np.power and may differ from it in the last unit"""
+    return {"+": np.add, "-": np.subtract, "*": np.multiply, "/": np.divide, "**": np.power}[op](a, b)
+
+
 def py_step(regs, st):
     """execute one step on real optyx; returns the register value (object | PyErr)"""
     import optyx
@@ -446,7 +452,7 @@ def np_step(nregs, st, values):
             if op == "mgetitem1":
                 return NPERR
             if op == "arith":
-                return arith_py(st[1], args[0], args[1])
+                return arith_np(st[1], args[0], args[1])
             if op == "neg":
                 return -args[0]
             if op == "sum":
